@@ -199,7 +199,7 @@ pub fn drain_forms<S: Soa, G: Gen>(g: &mut G, inclusive: bool) {
     g.assume(take <= CAP);
     let cnt = if inclusive { b + 1 - a } else { b - a };
     cov!(g, cnt == 2 && take == 1);
-    cov!(g, cnt == 0);
+    cov!(g, cnt == 1 && take == 0);
     let mut out = [[0u8; 4]; CAP];
     let got = s.drain_collect(a, b, inclusive, take, &mut out);
     ob!("drain.yields_min_take_count", got == if take < cnt { take } else { cnt });
@@ -228,7 +228,7 @@ pub fn drain_rev<S: Soa, G: Gen>(g: &mut G) {
 pub fn extend_collect<S: Soa, G: Gen>(g: &mut G) {
     let (items, n) = any_items::<S, G>(g);
     let m = g.usize();
-    g.assume(n + m <= CAP);
+    g.assume(m <= CAP && n + m <= CAP);
     cov!(g, n == 1 && m == 2);
     let mut s = S::build(&items[..n]);
     s.extend_(&items[n..n + m]);
